@@ -443,6 +443,23 @@ func runMC(cfg *propCfg, leg legCfg, res *result) {
 	res.mu.Lock()
 	res.tlcRuns = append(res.tlcRuns, fmt.Sprintf("%s/%s: %d cases exported", leg.Module, leg.Cfg, exported))
 	res.mu.Unlock()
+	if leg.Expect != "" {
+		// a deviation configuration: the model must be able to express the defect
+		want := "Invariant " + leg.Expect + " is violated"
+		found := false
+		for _, l := range log {
+			if strings.Contains(l, want) {
+				found = true
+			}
+		}
+		if !found {
+			res.infraf("TLC run %s/%s was expected to violate %s and did not\n%s", leg.Module, leg.Cfg, leg.Expect, strings.Join(lastN(log, 15), "\n"))
+		}
+		res.mu.Lock()
+		res.tlcRuns[len(res.tlcRuns)-1] += " (deviation: violates " + leg.Expect + " as expected)"
+		res.mu.Unlock()
+		return
+	}
 	if modelErr != "" || !completed || werr != nil {
 		// a failure of the model (or of TLC) is never a verdict about the code
 		res.infraf("TLC run %s/%s did not complete cleanly (%v) %s\n%s", leg.Module, leg.Cfg, werr, modelErr, strings.Join(lastN(log, 25), "\n"))
